@@ -1,4 +1,5 @@
 import Proofs.NonInterference
+import Proofs.RestartAvg
 /-
   C09 — Restart independence.
   The only consensus input the daemon keeps in memory is the rolling-average cache. The full
@@ -97,6 +98,80 @@ theorem restart_independent_partial_from (P : Params) (ch : Nat → Block) (hch 
 /-- a restart keeps every ledger table and re-derives the sync height from the database -/
 theorem restart_keeps_ledger (P : Params) (n : Node) : (restart P n).db.ledger = n.db.ledger := rfl
 
+/-! ### above PIP-10: exactly the hole matters (Proofs/AvgWindow, Proofs/AvgGet, Proofs/RestartAvg) -/
+
+/-- what the cache holds after any call, ticker by ticker: the quotes of the height window of the
+    height asked for — whether the answer came from the cache, from a reload, or from the
+    incremental step out of a window without a hole -/
+theorem cache_holds_the_window (P : Params) (hp : 0 < P.avgPeriod) (db : DB) (c : AvgCache) (height : Nat)
+    (hc : CacheSem P db c) (hh : c.height + 1 = height → ∀ t, NoHole P db c.height t) :
+    CacheSem P db (getAverages P db c height).1 ∧ (getAverages P db c height).1.height = height :=
+  getAverages_sem P hp db c height hc hh
+
+/-- the block transaction reads the averages only through what they answer per ticker (at every
+    height, above PIP-10 too) -/
+theorem block_reads_averages_per_ticker {P : Params} (c : DB) (b : Block) (a₁ a₂ : TMap) (hg : ∀ t, a₁.get t = a₂.get t) :
+    blockTx P c b a₁ = blockTx P c b a₂ :=
+  blockTx_get c b a₁ a₂ hg
+
+/-- a ticker that, once quoted, is quoted at every later rated height up to `H` leaves no hole -/
+theorem no_hole_when_quotes_continue (P : Params) (db : DB) (H : Nat) (t : Ticker)
+    (h : ∀ g, g < H → quoteAt P db g t ≠ [] → quoteAt P db (g + 1) t ≠ []) : NoHole P db H t := by
+  intro hH i hi hq
+  exact h _ (by omega) hq
+
+/-- **`restart_independent_whole_windows`**: at EVERY height — above the PIP-10 activation too —
+    any run of the daemon with any number of restarts, kills and failed iterations ends in the ledger
+    and sync height of the run without them, provided no averaging window the incremental path
+    starts from has a hole (`WholeRun`: inside the window a quoted height is never followed by an
+    unquoted one, i.e. no ungraded block after a quoted height). Together with the witness below
+    this pins the known finding down: restart dependence needs a hole, and a hole suffices. -/
+theorem restart_independent_whole_windows (P : Params) (hp : 0 < P.avgPeriod) (ch : Nat → Block) (hch : ∀ h, (ch h).height = h)
+    (es : List Ev) (hw : WholeRun P ch (freshNode P) es) :
+    (runEvs P ch (freshNode P) es).db.ledger = (runEvs P ch (freshNode P) (es.filter Ev.isAttempt)).db.ledger ∧
+    (runEvs P ch (freshNode P) es).mem = (runEvs P ch (freshNode P) (es.filter Ev.isAttempt)).mem :=
+  only_attempts_matter_whole P hp ch hch (freshNode P).mem es (freshNode P) (freshNode P) [] rfl rfl
+    (inOrder_fresh P) (inOrder_fresh P)
+    ⟨cacheOK_empty P, cacheSem_empty P _, Nat.zero_le _⟩ ⟨cacheOK_empty P, cacheSem_empty P _, Nat.zero_le _⟩ hw
+
+/-- the same from any consistent database being resumed by a process whose cache holds the window
+    of its height (a freshly started one does: `cacheGood_restart`) -/
+theorem restart_independent_whole_windows_from (P : Params) (hp : 0 < P.avgPeriod) (ch : Nat → Block) (hch : ∀ h, (ch h).height = h)
+    (n₀ : Node) (h0 : InOrder P n₀.mem n₀) (g0 : CacheGood P n₀) (es : List Ev) (hw : WholeRun P ch n₀ es) :
+    (runEvs P ch n₀ es).db.ledger = (runEvs P ch n₀ (es.filter Ev.isAttempt)).db.ledger ∧
+    (runEvs P ch n₀ es).mem = (runEvs P ch n₀ (es.filter Ev.isAttempt)).mem :=
+  only_attempts_matter_whole P hp ch hch n₀.mem es n₀ n₀ n₀.db.syncVersions rfl rfl h0 h0 g0 g0 hw
+
+/-- the witness of `restart_dependent_witness` is a hole: in the window [6, 13] of the running
+    process height 9 is quoted and height 10 (the ungraded block) is not -/
+theorem witness_window_has_a_hole : ¬ NoHole wP wDB 13 2 := by
+  intro h
+  have := h (by decide) 3 (by decide)
+  revert this
+  decide
+
+/-- the hypothesis is satisfiable on a window that matters: the same rate table without the gap
+    (heights 1..20 all rated) has no hole in the window [6, 13] -/
+def wDBfull : DB :=
+  { rates := ((List.range 20).map (· + 1)).map fun h => { height := h, token := "pUSD", value := 100 * h } }
+
+example : NoHole wP wDBfull 13 2 := by
+  intro _ i hi
+  match i, hi with
+  | 0, _ => decide
+  | 1, _ => decide
+  | 2, _ => decide
+  | 3, _ => decide
+  | 4, _ => decide
+  | 5, _ => decide
+  | 6, _ => decide
+  | i + 7, hi => exact absurd hi (by show ¬ i + 7 + 1 < 8; omega)
+
+/-- … and there the running process and a restarted one answer alike -/
+example : (getAverages wP wDBfull
+      (((List.range 13).map (· + 1)).foldl (fun c h => (getAverages wP wDBfull c h).1) {}) 14).2.get 2
+    = (reloadAverages wP wDBfull 14).get 2 := by decide
+
 end Pegnet.C09
 
 #print axioms Pegnet.C09.reload_is_function_of_db
@@ -108,3 +183,9 @@ end Pegnet.C09
 #print axioms Pegnet.C09.restart_independent_partial
 #print axioms Pegnet.C09.restart_independent_partial_from
 #print axioms Pegnet.C09.restart_keeps_ledger
+#print axioms Pegnet.C09.cache_holds_the_window
+#print axioms Pegnet.C09.block_reads_averages_per_ticker
+#print axioms Pegnet.C09.no_hole_when_quotes_continue
+#print axioms Pegnet.C09.restart_independent_whole_windows
+#print axioms Pegnet.C09.restart_independent_whole_windows_from
+#print axioms Pegnet.C09.witness_window_has_a_hole
